@@ -53,6 +53,9 @@ type Report struct {
 
 // New creates a report from the environment (VERIF_TIER, VERIF_SEED, VERIF_BUDGET_S).
 func New(id, part, variant string) *Report {
+	// a part run on another platform (GOARCH=386 cross-build) carries the platform in its name
+	part += os.Getenv("VERIF_PART_SUFFIX")
+
 	r := &Report{
 		ID: id, Part: part, Variant: variant, Tier: Tier(), Seed: Seed(),
 		counters: map[string]int64{}, violations: map[string]*Violation{}, bounds: map[string]any{},
